@@ -20,11 +20,16 @@ from lib import common
 from lib.common import enc_list, dec_list
 
 MAIN, MEMORY, OBS = 0, 1, 2
-DBS = {11: "DB1", 12: "DB2", 13: "DB3"}
-SCHEMAS = {21: "S1", 22: "S2", 23: "S3"}
+DBS = {11: "DB1", 12: "DB2", 13: "DB3", 14: "dbq"}
+SCHEMAS = {21: "S1", 22: "S2", 23: "S3", 24: "Sq"}
 TABLES = {31: "T1", 32: "T2", 33: "T3"}
+QUOTED_ONLY = {14, 24}   # created and referenced only in double quotes, exactly as written (lower / mixed case names)
 NAMES = {MAIN: "main", MEMORY: "memory", OBS: "OBS", **DBS, **SCHEMAS, **TABLES}
-IDS = {v.upper(): k for k, v in NAMES.items()}
+IDS = {v: k for k, v in NAMES.items()}   # exact: an unquoted name is reported in upper case, a quoted one as written
+
+
+def sqlname(i: int) -> str:
+    return '"' + NAMES[i] + '"' if i in QUOTED_ONLY else NAMES[i]
 SQLSTATE = {90105: "22000", 90106: "22000", 2043: "02000", 2003: "42S02"}
 
 
@@ -57,6 +62,8 @@ class Gen:
         self.nsess = 0
 
     def name(self, i):
+        if i in QUOTED_ONLY:
+            return '"' + NAMES[i] + '"'
         if self.rnd.random() < 0.1:
             return '"' + NAMES[i].upper() + '"'   # quoted spelling of the same name
         return _spell(self.rnd, NAMES[i])
@@ -104,19 +111,50 @@ class Gen:
         if k < 0.15:
             return {"op": f"c,-,-,{fl}", "connect": [None, None]}
         if k < 0.4:
-            d = r.choice(list(DBS))
+            d = r.choice([11, 12, 13])
             if self.flags[0]:
                 self.dbs.add(d)
             return {"op": f"c,{d},-,{fl}", "connect": [_spell(r, NAMES[d]), None]}
-        d, s = r.choice(list(DBS)), r.choice(list(SCHEMAS))
+        d, s = r.choice([11, 12, 13]), r.choice([21, 22, 23])
         if self.flags[0]:
             self.dbs.add(d)
         if self.flags[1] and d in self.dbs:
             self.schemas.add((d, s))
         return {"op": f"c,{d},{s},{fl}", "connect": [_spell(r, NAMES[d]), _spell(r, NAMES[s])]}
 
+    def two(self, i):
+        """two-table statement: target (often qualified into another schema than the current one, with a same-named object in the
+        current schema) and source; INSERT…SELECT and CTAS optionally read the source through a CTE whose name may equal the target's"""
+        r = self.rnd
+        kw = lambda s: _kw(r, s)  # noqa: E731
+        op = r.choices(["is", "cs", "cl", "uf", "du", "mg"], [5, 4, 3, 3, 3, 5])[0]
+        ea, ta, oa = self.tref()
+        for _ in range(6):
+            eb, tb, ob = self.tref()
+            if op in ("is", "cs", "cl") or ob[2] != oa[2]:
+                break
+        if op in ("uf", "du", "mg") and ob[2] == oa[2]:   # DuckDB rejects the duplicate alias: not explored
+            n2 = r.choice([n for n in TABLES if n != oa[2]])
+            ob = (ob[0], ob[1], n2)
+            eb, tb = f"{ob[1]}.{n2}", f"{self.name(ob[1])}.{self.name(n2)}"
+        if op == "mg" and r.random() < 0.85:   # MERGE cannot take a qualified source (C03/merge-qualified-source)
+            eb, tb = f"{ob[2]}", self.name(ob[2])
+        ab, bb = self.name(oa[2]), self.name(ob[2])
+        if op in ("cs", "cl"):
+            self.objs.add(oa)
+        cte = op in ("is", "cs") and r.random() < 0.4
+        cname = self.name(oa[2]) if r.random() < 0.6 and oa[2] != ob[2] else _spell(r, "cte1")   # a CTE named like its own source would be circular
+        src = f"{kw('with')} {cname} {kw('as')} ({kw('select')} x {kw('from')} {tb}) {kw('select')} x {kw('from')} {cname}" if cte else f"{kw('select')} x {kw('from')} {tb}"
+        sql = {"is": f"{kw('insert into')} {ta} {src}",
+               "cs": f"{kw('create table')} {ta} {kw('as')} {src}",
+               "cl": f"{kw('create table')} {ta} {kw('clone')} {tb}",
+               "uf": f"{kw('update')} {ta} {kw('set')} x = {ab}.x + 1000 {kw('from')} {tb} {kw('where')} {ab}.x = {bb}.x",
+               "du": f"{kw('delete from')} {ta} {kw('using')} {tb} {kw('where')} {ab}.x = {bb}.x",
+               "mg": f"{kw('merge into')} {ta} {kw('using')} {tb} {kw('on')} {ab}.x = {bb}.x {kw('when not matched then insert')} (x) {kw('values')} ({bb}.x)"}[op]
+        return {"op": f"s,{i},w,{op},{ea},{eb}", "sql": sql}
+
     WEIGHTS = [("su", 14), ("ud", 7), ("sc", 8), ("sd", 9), ("cd", 3), ("dd", 1), ("ub", 1), ("tc", 15), ("td", 6),
-               ("ti", 12), ("ts", 11), ("j", 4), ("x", 4), ("c", 2)]
+               ("ti", 12), ("ts", 11), ("j", 4), ("x", 4), ("c", 2), ("w", 20)]
 
     def stmt(self):
         r = self.rnd
@@ -171,6 +209,8 @@ class Gen:
         if kind == "ts":
             enc, txt, _ = self.tref()
             return {"op": f"s,{i},ts,{enc}", "sql": f"{kw('select')} x {kw('from')} {txt} {kw('order by')} x"}
+        if kind == "w":
+            return self.two(i)
         if kind == "j":
             e1, t1, _ = self.tref()
             e2, t2, _ = self.tref()
@@ -269,6 +309,24 @@ def corpus() -> list[dict]:
           ("s,1,su,21", "use schema s1"), ("s,1,tc,t,0,0,31", "create table t1 (x int)"), ("s,1,ud,11", "use database db1"), ("s,1,su,21", "use schema s1"),
           ("s,1,tc,t,0,0,31", "create table t1 (x int)"), ("c,11,22,0,0", ("DB1", "S2")), ("s,3,tc,t,0,0,32", "create table t2 (x int)"),
           ("s,3,sc,0,22", "create schema s2"), ("s,3,su,22", "use schema s2"), ("s,3,tc,t,0,0,32", "create table t2 (x int)"), flags=(0, 0), raw=True),
+        # two-table statements whose target lives in another schema than the current one, with a same-named table in the current schema
+        H(("c,11,21,1,1", ("db1", "s1")), ("s,1,sc,0,22", "create schema s2"), ("s,1,tc,t,0,0,31", "create table t1 (x int)"), ("s,1,tc,t,0,0,22.31", "create table s2.t1 (x int)"),
+          ("s,1,tc,t,0,0,32", "create table t2 (x int)"), ("s,1,ti,1,32", "insert into t2 values (1)"), ("s,1,ti,7,32", "insert into t2 values (7)"), ("s,1,ti,1,22.31", "insert into s2.t1 values (1)"),
+          ("s,1,w,mg,22.31,32", "merge into s2.t1 using t2 on t1.x = t2.x when not matched then insert (x) values (t2.x)"), ("s,1,w,is,11.22.31,32", "insert into db1.s2.t1 select x from t2"),
+          ("s,1,w,uf,22.31,21.32", "update s2.t1 set x = t1.x + 1000 from s1.t2 where t1.x = t2.x"), ("s,1,w,du,22.31,32", "delete from s2.t1 using t2 where t1.x = t2.x"),
+          ("s,1,w,cs,22.33,31", "create table s2.t3 as select x from t1"), ("s,1,w,cl,22.32,22.31", "create table s2.t2 clone s2.t1"), ("s,1,w,mg,31,22.31", "merge into t1 using s2.t1 on t1.x = t1.x when not matched then insert (x) values (t1.x)"),
+          ("s,1,ts,31", "select x from t1 order by x"), raw=True),
+        # CTEs: the CTE's name may equal the target's name; on connections without schema / database the unqualified target still needs one
+        H(("c,11,21,1,1", ("db1", "s1")), ("c,11,-,1,1", ("db1", None)), ("c,-,-,1,1", (None, None)), ("s,1,tc,t,0,0,31", "create table t1 (x int)"), ("s,1,ti,1,31", "insert into t1 values (1)"),
+          ("s,2,w,cs,32,11.21.31", "create table t2 as with t2 as (select x from db1.s1.t1) select x from t2"), ("s,3,w,cs,32,11.21.31", "create table t2 as with t2 as (select x from db1.s1.t1) select x from t2"),
+          ("s,2,w,is,31,11.21.31", "insert into t1 with t1 as (select x from db1.s1.t1) select x from t1"), ("s,3,w,is,31,11.21.31", "insert into t1 with cte1 as (select x from db1.s1.t1) select x from cte1"),
+          ("s,1,w,cs,32,11.21.31", "create table t2 as with t2 as (select x from db1.s1.t1) select x from t2"), ("s,1,w,is,32,31", "insert into t2 with t2 as (select x from t1) select x from t2"),
+          ("s,2,w,cs,21.33,21.31", "create table s1.t3 as with t3 as (select x from s1.t1) select x from t3"), ("s,3,w,cs,21.33,21.31", "create table s1.t3 as with c as (select x from s1.t1) select x from c"), raw=True),
+        # quoted lower / mixed-case database and schema names: reported exactly as written
+        H(("c,11,21,1,1", ("db1", "s1")), ("s,1,cd,14,0", 'create database "dbq"'), ("s,1,ud,14", 'use database "dbq"'), ("s,1,x", "select current_database(), current_schema()"),
+          ("s,1,sc,0,24", 'create schema "Sq"'), ("s,1,su,24", 'use schema "Sq"'), ("s,1,tc,t,0,0,31", "create table t1 (x int)"), ("s,1,ti,1,14.24.31", 'insert into "dbq"."Sq".t1 values (1)'),
+          ("s,1,ts,31", "select x from t1 order by x"), ("s,1,su,11.21", "use schema db1.s1"), ("s,1,su,14.24", 'use schema "dbq"."Sq"'), ("s,1,x", "select current_database(), current_schema()"),
+          ("s,1,sd,1,24", 'drop schema if exists "Sq"'), ("s,1,tc,t,0,0,32", "create table t2 (x int)"), raw=True),
     ]
 
 
@@ -279,7 +337,7 @@ def corpus() -> list[dict]:
 def _id(name):
     if name is None:
         return "-"
-    return str(IDS.get(str(name).upper(), f"?{name}"))
+    return str(IDS.get(str(name), f"?{name}"))
 
 
 def _real_res(conn, op: str, sql: str) -> str:
@@ -329,7 +387,7 @@ def _rows(obs, cat: str) -> str:
     out = []
     for o in [x for x in cat.split("|")[2].split(",") if x]:
         fq, k = o.split(":")
-        d, s, n = (NAMES.get(int(p), p) if p.isdigit() else p for p in fq.split("."))
+        d, s, n = (sqlname(int(p)) if p.isdigit() else p for p in fq.split("."))
         cur = obs.cursor()
         try:
             cur.execute(f"select x from {d}.{s}.{n} order by x")
@@ -350,7 +408,8 @@ def _current(c) -> str:
 
 
 CTX_KINDS = {"su", "ud", "ub", "sd", "dd", "cd", "connect"}   # after these CURRENT_* of EVERY connection is re-read
-DDL_KINDS = {"tc", "td", "sc", "sd", "cd", "dd", "connect"}   # after these the catalog is re-read
+DDL_KINDS = {"tc", "td", "sc", "sd", "cd", "dd", "connect", "w"}   # after these the catalog is re-read
+ROW_KINDS = {"w"}   # after these the rows of every object are re-read (which table did the rows land in)
 
 
 def real_history(hist: dict) -> list[str]:
@@ -393,7 +452,7 @@ def real_history(hist: dict) -> list[str]:
                 cat = _catalog(conns[0])
             sess = "!".join(f"{_id(c.database)}/{_id(c.schema)}/{p}" for c, p in zip(conns, paths))
             obs = f"{res}~{sess}~{cat or ''}"
-            if last:
+            if last or (kind in ROW_KINDS and cat):
                 obs += "~" + _rows(conns[0], cat)
             out.append(obs)
     return out
@@ -419,6 +478,13 @@ def _canon_cat(c: str, with_rows: bool) -> str:
     return ",".join(sorted(x for x in dbs.split(",") if x)) + "|" + ",".join(sorted(x for x in schemas.split(",") if x)) + "|" + ",".join(sorted(os_))
 
 
+def _canon_res(res: str) -> str:
+    """rows of `select x … order by x`: the model keeps insertion order, the query sorts — compare as sorted multisets"""
+    if res.startswith("r") and res[1:] and all(p.isdigit() for p in res[1:].split(".")):
+        return "r" + ".".join(str(v) for v in sorted(int(p) for p in res[1:].split(".")))
+    return res
+
+
 def _check_history(chk, hist: dict, real: list[str], reply: dict) -> None:
     ops = hist["ops"]
     case = {"flags": hist["flags"], "ops": ops}
@@ -433,8 +499,16 @@ def _check_history(chk, hist: dict, real: list[str], reply: dict) -> None:
         if k >= len(real):
             break
         impl_res, spec_res, key, sess, impl_cat, spec_cat = steps[k].split("~")
+        impl_res, spec_res = _canon_res(impl_res), _canon_res(spec_res)
+        if key == "unsupported":   # outcome not modelled (duplicate alias): the history ends
+            chk.count("skipped_unsupported:two-table statement with equal bare names")
+            return
+        any_error = key.endswith("+anyerror")   # target and source both faulty, different classes: any error, nothing may change
+        if any_error:
+            key = key[:-len("+anyerror")]
+            chk.count("steps:double-fault (error class not compared)")
         parts = real[k].split("~")
-        r_res, r_sess, r_cat = parts[0], parts[1], parts[2]
+        r_res, r_sess, r_cat = _canon_res(parts[0]), parts[1], parts[2]
         kind = "connect" if "connect" in op else op["op"].split(",")[2]
         chk.count("op:" + kind)
         chk.count("res:" + (r_res[:6] if r_res.startswith("e") else r_res[:1]))
@@ -443,6 +517,8 @@ def _check_history(chk, hist: dict, real: list[str], reply: dict) -> None:
         msess = [s.split("/") for s in sess.split("!")]
         rsess = [s.split("/") for s in r_sess.split("!")] if r_sess else []
         r_res_c = "eraw" if r_res.startswith("eraw") else r_res
+        if any_error and r_res_c in ("e2003", "e2043"):
+            r_res_c = impl_res
         impl_fields = [m[0:2] for m in msess]
         impl_paths = [m[2:4] for m in msess]
         spec_ctx = [m[4:6] for m in msess]
